@@ -25,6 +25,7 @@ import (
 	"hash/fnv"
 	"os"
 	"path/filepath"
+	"runtime"
 	"sort"
 	"strings"
 	"sync"
@@ -1478,21 +1479,30 @@ func (s *vfC11clSys) finish() {
 	for _, d := range s.allD {
 		d.cancel()
 	}
-	for slot, c := range s.w.pendingSlots() {
-		s.w.takePending(slot)
-		c.reply <- vfC11clNSReply{nil, errVfC11clNS}
-	}
-	synctest.Wait()
-	for _, d := range s.allD {
-		if d.pipe != nil {
-			d.pipe.ends[1].Reset()
+	// whatever is still (or again) at a gate fails, every hop stream is reset, until nothing moves any more
+	for round := 0; round < 6; round++ {
+		moved := false
+		for slot, c := range s.w.pendingSlots() {
+			s.w.takePending(slot)
+			c.reply <- vfC11clNSReply{nil, errVfC11clNS}
+			moved = true
+		}
+		synctest.Wait()
+		for _, d := range s.allD {
+			if d.pipe != nil {
+				d.pipe.ends[1].Reset()
+			}
+		}
+		synctest.Wait()
+		for slot := range s.up.pendingSlots() {
+			s.up.take(slot).reply <- "upfail"
+			moved = true
+		}
+		synctest.Wait()
+		if !moved {
+			break
 		}
 	}
-	synctest.Wait()
-	for slot := range s.up.pendingSlots() {
-		s.up.take(slot).reply <- "upfail"
-	}
-	synctest.Wait()
 	for _, in := range s.allI {
 		in.pipe.ends[1].Reset()
 	}
@@ -1553,8 +1563,39 @@ func vfC11clSetTimeouts(cfg *vfC11clCfg) func() {
 	return func() { AcceptTimeout, StreamTimeout, DialTimeout, DialRelayTimeout = a, st, d, r }
 }
 
-func vfC11clRunWalk(t *testing.T, cfg *vfC11clCfg, w vfh.Walk, out *vfh.Result) {
+// vfC11clBubble runs f in a synctest bubble.  A panic of the harness inside the bubble is counted (the driver turns it
+// into a machinery failure unless a violation was recorded before it); goroutines of the code under test that are
+// still blocked when the bubble ends (synctest's deadlock panic, raised in the calling goroutine) are a mismatch.
+func vfC11clBubble(t *testing.T, out *vfh.Result, what string, f func(t *testing.T)) {
+	panicked := false
+	defer func() {
+		if r := recover(); r != nil {
+			msg := fmt.Sprint(r)
+			if !strings.Contains(msg, "deadlock") {
+				panic(r)
+			}
+			if panicked {
+				return // follows from the harness panic
+			}
+			out.AddMismatch(vfh.Mismatch{Class: "goroutines-left-blocked", What: fmt.Sprintf("[%s] after everything was cancelled, reset and closed, goroutines started by the client are still blocked: %s", what, msg), Walk: -1, Step: -1})
+		}
+	}()
 	synctest.Test(t, func(t *testing.T) {
+		defer func() {
+			if r := recover(); r != nil {
+				panicked = true
+				out.Inc("harness_panics", 1)
+				buf := make([]byte, 6000)
+				buf = buf[:runtime.Stack(buf, false)]
+				out.Set("harness_panic_sample", fmt.Sprintf("[%s] %v\n%s", what, r, buf))
+			}
+		}()
+		f(t)
+	})
+}
+
+func vfC11clRunWalk(t *testing.T, cfg *vfC11clCfg, w vfh.Walk, out *vfh.Result) {
+	vfC11clBubble(t, out, fmt.Sprintf("%s walk %d", cfg.Name, w.Walk), func(t *testing.T) {
 		v := vfC11clVariant{n: w.Walk + int(vfh.Seed())}
 		s, err := vfC11clNewSys(cfg, v, out)
 		if err != nil {
